@@ -98,6 +98,16 @@ class Mt:
         self.r, self.q, self.pos = r, q, pos
 
 
+class PyMap:
+    """a dict literal with constant keys (enum members / strings) evaluated at analysis time: list of (key term, value).
+    Used for the parser's class-level tables; values may be any engine value (ints, strings, bound methods)."""
+
+    __slots__ = ("items",)
+
+    def __init__(self, items):
+        self.items = items
+
+
 class SuperProxy:
     __slots__ = ("recv", "after")
 
